@@ -53,6 +53,9 @@ type c13rec struct {
 	files   map[int64][]byte // state file after commit of height h
 	states  map[int64]*app.ShutterApp
 	blockOf []int64 // height an op belongs to
+	// mid[i]: the state file as it is on disk right after op i (a transaction in the
+	// middle of a block) was executed; nil if there is none yet
+	mid map[int][]byte
 }
 
 // runPersisting executes the history on an app that persists at every commit.
@@ -61,7 +64,7 @@ func runPersisting(w *appx.World, g appx.Genesis, ops []appx.Op) *c13rec {
 	app.PersistMinDuration = -time.Hour
 	a, bb := w.U.NewApp(g)
 	a.Gobpath = gobPath
-	rec := &c13rec{begin: map[int64][]byte{}, dumps: map[int64]string{}, files: map[int64][]byte{}, states: map[int64]*app.ShutterApp{}}
+	rec := &c13rec{begin: map[int64][]byte{}, dumps: map[int64]string{}, files: map[int64][]byte{}, states: map[int64]*app.ShutterApp{}, mid: map[int][]byte{}}
 	b0, _ := bb.Marshal()
 	rec.begin[1] = b0
 	n := node{a: a}
@@ -71,6 +74,11 @@ func runPersisting(w *appx.World, g appx.Genesis, ops []appx.Op) *c13rec {
 		n.nops++
 		rec.resp = append(rec.resp, r.Bytes)
 		rec.blockOf = append(rec.blockOf, h)
+		if o.Kind != "endblock" {
+			if data, _, ok := vos.Cur.Content(gobPath); ok {
+				rec.mid[len(rec.resp)-1] = append([]byte(nil), data...)
+			}
+		}
 		if o.Kind == "endblock" {
 			rec.dumps[h] = appx.StateDump(a)
 			data, _, ok := vos.Cur.Content(gobPath)
@@ -86,10 +94,38 @@ func runPersisting(w *appx.World, g appx.Genesis, ops []appx.Op) *c13rec {
 	return rec
 }
 
+// restartMid: the node dies right after op i (in the middle of a block) and is
+// restarted from the state file that is on disk at that moment.
+func restartMid(w *appx.World, ops []appx.Op, rec *c13rec, i int) string {
+	data := rec.mid[i]
+	if data == nil {
+		return ""
+	}
+	fs := vos.New()
+	fs.SetContent(gobPath, data)
+	vos.Cur = fs
+	loaded, err := app.LoadShutterAppFromFile(gobPath)
+	if err != nil {
+		return fmt.Sprintf("the state file on disk after op %d (%s, block %d) does not load: %v", i, ops[i], rec.blockOf[i], err)
+	}
+	s := loaded.Info(abcitypes.RequestInfo{}).LastBlockHeight
+	if _, ok := rec.files[s]; !ok || s >= rec.blockOf[i] {
+		return fmt.Sprintf("the state file on disk after op %d (%s, block %d) reports height %d, which is not a committed height below that block", i, ops[i], rec.blockOf[i], s)
+	}
+	if msg := restartFrom(w, ops, rec, s, data); msg != "" {
+		return fmt.Sprintf("node killed after op %d (%s, in block %d) and restarted from the file on disk: %s", i, ops[i], rec.blockOf[i], msg)
+	}
+	return ""
+}
+
 // restartAt loads the file saved at height s and replays the rest.
 func restartAt(w *appx.World, ops []appx.Op, rec *c13rec, s int64) string {
+	return restartFrom(w, ops, rec, s, rec.files[s])
+}
+
+func restartFrom(w *appx.World, ops []appx.Op, rec *c13rec, s int64, file []byte) string {
 	fs := vos.New()
-	fs.SetContent(gobPath, rec.files[s])
+	fs.SetContent(gobPath, file)
 	vos.Cur = fs
 	loaded, err := app.LoadShutterAppFromFile(gobPath)
 	if err != nil {
@@ -358,6 +394,19 @@ func c13() *report.Check {
 						return
 					}
 				}
+				// node killed in the middle of a block (after each transaction), restarted from
+				// the file found on disk
+				for i := range h.Ops {
+					if h.Ops[i].Kind == "endblock" {
+						continue
+					}
+					c.Stats.Evaluations++
+					c.Stats.Count("mid_block_restarts", 1)
+					if msg := restartMid(w, h.Ops, rec, i); msg != "" {
+						c.Violation("C13/restart-diverges", h.Name+": "+msg, c13Replay{Kind: "mid", Genesis: h.Genesis, Ops: h.Ops, Event: i})
+						return
+					}
+				}
 				// crash during each save but the first
 				for i := 1; i < len(heights); i++ {
 					prev, cur := heights[i-1], heights[i]
@@ -433,6 +482,9 @@ func c13() *report.Check {
 			case "replay":
 				rec := runPersisting(w, rp.Genesis, rp.Ops)
 				return restartAt(w, rp.Ops, rec, rp.Save)
+			case "mid":
+				rec := runPersisting(w, rp.Genesis, rp.Ops)
+				return restartMid(w, rp.Ops, rec, rp.Event)
 			case "bisim":
 				a, _ := w.U.NewApp(rp.Genesis)
 				n := node{a: a}
